@@ -211,6 +211,16 @@ def campaign_enum_depth1(ctx):
             obj = cx["a"]
             ctx.check_case([t, cx, obj], orc)
             n += 1
+    # every helper over every operator node that has a non-numeric constant on one side (text, bytes, tuples: the constants whose
+    # printed form differs most between str() and repr())
+    for i, t in enumerate(trees):
+        if i % ctx.nshards != ctx.shard or t[0] != "bin" or t[1] not in ("+", "*", "%", "==", "!=", "<"):
+            continue
+        if not any(X.is_const(x) and isinstance(x[1], (str, bytes, tuple)) for x in (t[2], t[3])):
+            continue
+        for f in sorted(X.FUNCS):
+            for cx in cxs[:4]:
+                ctx.check_case([["fn", f, t], cx, cx["a"]], orc)
     ctx.exhaustive("C11: all depth<=1 trees over {this.a, this['b'], this._.c | obj_} x 9 constants x 18 binary + 3 unary operators"
                    + (" x all 216 contexts a,b,c in -2..3" if ctx.thorough else " x 12 contexts"))
 campaign_enum_depth1.shards = (2, 8)
@@ -270,7 +280,8 @@ def tree_strategy(root):
             lambda t: X.has_placeholder(t[1]) or X.has_placeholder(t[2])).map(lambda t: ["bin", t[0], t[1], t[2]])
         unop = st.tuples(st.sampled_from(sorted(X.UNOPS)), children).filter(
             lambda t: X.has_placeholder(t[1])).map(lambda t: ["un", t[0], t[1]])
-        fn = st.tuples(st.sampled_from(sorted(X.FUNCS)), ph).map(lambda t: ["fn", t[0], t[1]])
+        # the helpers take a placeholder or any expression over one: len_(this.n * "ab"), abs_(this.a == "1"), sum_(this.v + (2,))
+        fn = st.tuples(st.sampled_from(sorted(X.FUNCS)), st.one_of(ph, children.filter(X.has_placeholder))).map(lambda t: ["fn", t[0], t[1]])
         return st.one_of(binop, binop, binop, unop, fn)
     return st.recursive(leaf, extend, max_leaves=8).filter(lambda t: X.has_placeholder(t) and X.depth(t) <= 5)
 
